@@ -244,7 +244,7 @@ def run(ctx):
                         d = rel(F, Fm, fs)
                         evs.append({"event": "Relation", "xcls": c["x"],
                                     "rel": "field_mie_vs_multisphere" + ("_tight" if tight else ""),
-                                    "mb": quant.mb(d)})
+                                    "mb": quant.mb(d), "mcls": c["m"]})
                     except Exception as e:
                         if c["x"] in ("xlarge",):
                             ctx.uncovered("Multisphere at size class xlarge: %s" % type(e).__name__)
